@@ -235,3 +235,42 @@ package iam
 //@        && !("exp" in result.0.AdditionalProperties) && !("iat" in result.0.AdditionalProperties) && !("client_id" in result.0.AdditionalProperties)
 //@        && !("scope" in result.0.AdditionalProperties) && !("cnf" in result.0.AdditionalProperties) && !("aud" in result.0.AdditionalProperties)
 //@        && !("vps" in result.0.AdditionalProperties) && !("presentation_definitions" in result.0.AdditionalProperties) && !("presentation_submissions" in result.0.AdditionalProperties)
+
+// ---- C02 / C05: authorization-code flow ----
+
+//@ func crypto/sha256.Sum256
+//@   trusted
+//@   pure heap
+//@ func (*base64.Encoding).EncodeToString
+//@   trusted
+//@   pure heap
+
+// Only S256; the challenge must be the base64url encoding of the SHA-256 of exactly this verifier.
+//@ func validatePKCEParams
+//@   prop C02
+//@   safety
+//@   modifies nothing
+//@   ensures [only-s256] result ==> params.ChallengeMethod == "S256"
+//@   ensures [challenge-is-hash-of-verifier] result ==> did(call (*base64.Encoding).EncodeToString #1) && params.Challenge == ret(call (*base64.Encoding).EncodeToString #1)
+//@        && did(call crypto/sha256.Sum256 #1)
+
+//@ func (Wrapper).oauthCodeStore
+//@   prop C02
+//@   assume-benign
+//@   ensures !isNilIface(result)
+
+// A token is issued only for a code that was taken out of the store by this request (GetAndDelete),
+// for the client the code was issued to, after the PKCE verifier of this request matched the stored
+// challenge; every attempt that presented a code deletes it.
+//@ func (Wrapper).handleAccessTokenRequest
+//@   prop C02 C05
+//@   call (Wrapper).createAccessToken #1 requires [code-client-and-pkce-verified]
+//@        request.Code != nil && request.ClientId != nil && request.CodeVerifier != nil
+//@        && isNilIface(ret(call (storage.SessionStore).GetAndDelete #1)) && arg(call (storage.SessionStore).GetAndDelete #1, 1) == *request.Code
+//@        && oauthSession.ClientID == *request.ClientId
+//@        && ret(call validatePKCEParams #1) == true && arg(call validatePKCEParams #1, 0).Verifier == *request.CodeVerifier
+//@        && arg(call validatePKCEParams #1, 0).Challenge == oauthSession.PKCEParams.Challenge && arg(call validatePKCEParams #1, 0).ChallengeMethod == oauthSession.PKCEParams.ChallengeMethod
+//@        && arg(2) == oauthSession.ClientID && arg(4) == oauthSession.Scope && same(arg(5), *oauthSession.OpenID4VPVerifier)
+//@        && isNilIface(ret(call dpopFromRequest #1).1) && arg(6) == ret(call dpopFromRequest #1).0
+//@   ensures [code-is-dead-after-any-attempt] request.Code != nil ==> did(call (storage.SessionStore).Delete #1) && arg(call (storage.SessionStore).Delete #1, 1) == *request.Code
+//@   ensures [token-only-from-createAccessToken] isNilIface(result.1) ==> did(call (Wrapper).createAccessToken #1) && isNilIface(ret(call (Wrapper).createAccessToken #1).1)
